@@ -50,6 +50,14 @@ STRENGTHENED = {
     # fourth wave (file-focused: each agent owned one source file and chose the property)
     "F_main-C": "missed: C11 drove transpile+exec on a prepared Context, never the entry point that parses the inputs -> end-to-end section: main.execute_vyxal (offline and online) x every list of <=3 input texts incl. ones evaluating to 0 / [] / \"\" x every sequence of reading operations",
     "F_LazyList-C": "missed: every printed lazy list was either fresh or fully produced -> programs that look at a lazy value through a second reference (duplicate, register, variable, if) and then print it, under all flag sets",
+    # fifth wave (area-focused: context, codecs, modifiers, numeric, list operations, strings, lazy operations, element table)
+    "G_codec-A": "missed: every codec was exercised in its own worker, and the cross-kind oracle used the library's own base helpers (wrong on both sides) -> expected values computed independently + mixed-codec histories (all orders of numbers / strings / dictionary strings, interleaved) each in a freshly forked process",
+    "G_codec-C": "missed by C06: no history evaluated a compressed literal with the same body before the back-quoted one -> every string also after «body« and »body» in the same process",
+    "G_strings-B": "C06 did not return on this change (the mis-quoted text is a loop): evaluating a literal now runs under a watchdog and non-termination is a violation; the change is then caught by the plain round trip",
+    "G_strings-C": "missed: the audit looked for taint NAMES in executed code; an expression parser (sympy) turns unknown names into Symbol('name') -> the bare identifier as a string constant of executed code counts as parsed user text",
+    "G_listops-B": "missed: sort bodies were pure and lists had no repeated items -> eager higher-order elements (sort, reduce) with printing / register-touching bodies over lists and inputs with repeats",
+    "G_modifiers-A": "missed: modifier operands were single elements -> every modifier around explicit lambdas of arity 1-3 whose bodies have several consuming elements",
+    "G_modifiers-C": "missed: lambdas were only called through the call element -> lambdas declaring 1-3 parameters called with one argument by map / filter (the library's apply protocol), forced in order",
     "C14-C": "missed: the item at index n was read from the cache after has_ind -> a third way of taking the prefix: real indexing result[n]",
 }
 
